@@ -97,6 +97,16 @@ func TestBoundedC04(t *testing.T) {
 		seqs = append(seqs, []any{reqs[i], frames[i%len(frames)], reqs[(i+1)%len(reqs)], frames[(i+2)%len(frames)], frames[(i+3)%len(frames)]})
 		seqs = append(seqs, []any{ress[i%len(ress)], ress[(i+1)%len(ress)], frames[0], ress[(i+2)%len(ress)]})
 	}
+	// status codes outside the library's table, written without a status message (the line then ends
+	// "299 \r\n"): the size computed for the buffer and the bytes written must agree, or the last byte
+	// of the message is lost and the next message is mis-framed
+	odd := []*base.Response{
+		{StatusCode: 299, Header: base.Header{"CSeq": base.HeaderValue{"5"}}},
+		{StatusCode: 520, Header: base.Header{"CSeq": base.HeaderValue{"6"}, "Content-Type": base.HeaderValue{"text/parameters"}}, Body: boundedFill(14, 7)},
+	}
+	for _, r := range odd {
+		seqs = append(seqs, []any{r}, []any{r, ress[0], frames[1]}, []any{frames[0], r, reqs[1]})
+	}
 	patterns := [][]int{{1}, {2}, {3}, {5, 1}, {7}, {16}, {63, 1, 64}, {100}, {511, 513}, {1000}, {4095}, {4096}, {4097}, {1 << 20}, {1, 1 << 20}, {4096, 1}, {10, 4086, 3}}
 
 	for si, seq := range seqs {
